@@ -1,0 +1,79 @@
+//go:build verif
+
+package rangeplugin
+
+import (
+	"sort"
+	"sync"
+	"time"
+)
+
+// Verification hooks (build tag verif). verifInstances maps the lease-database
+// file name given to setupRange to the instance created for it, so that a model
+// checker driving several instances in one process can find each one.
+var verifInstances sync.Map
+
+func verifRegister(filename string, p *PluginState) { verifInstances.Store(filename, p) }
+
+// VerifInstance returns the most recent instance set up on filename.
+func VerifInstance(filename string) *PluginState {
+	v, ok := verifInstances.Load(filename)
+	if !ok {
+		return nil
+	}
+	return v.(*PluginState)
+}
+
+// VerifForget drops the registration for filename.
+func VerifForget(filename string) { verifInstances.Delete(filename) }
+
+// VerifState is a canonical dump of the mutable state of an instance.
+type VerifState struct {
+	Records   []string // sorted "mac=ip"
+	Bits      []uint
+	LeaseTime time.Duration
+}
+
+type verifBitser interface{ VerifBits() []uint }
+
+// VerifDump returns the state of the instance; takes the plugin lock.
+func (p *PluginState) VerifDump() VerifState {
+	p.Lock()
+	defer p.Unlock()
+	s := VerifState{LeaseTime: p.LeaseTime}
+	for mac, r := range p.Recordsv4 {
+		s.Records = append(s.Records, mac+"="+r.IP.String())
+	}
+	sort.Strings(s.Records)
+	if b, ok := p.allocator.(verifBitser); ok {
+		s.Bits = b.VerifBits()
+	}
+	return s
+}
+
+// VerifExpiry returns the stored expiry (unix seconds) for a MAC string, or 0.
+func (p *PluginState) VerifExpiry(mac string) int {
+	p.Lock()
+	defer p.Unlock()
+	if r, ok := p.Recordsv4[mac]; ok {
+		return r.expires
+	}
+	return 0
+}
+
+// VerifLocked reports whether the plugin lock is currently held.
+func (p *PluginState) VerifLocked() bool {
+	if p.TryLock() {
+		p.Unlock()
+		return false
+	}
+	return true
+}
+
+// VerifClose closes the lease database handle (the plugin itself never does).
+func (p *PluginState) VerifClose() error {
+	if p.leasedb == nil {
+		return nil
+	}
+	return p.leasedb.Close()
+}
